@@ -1,6 +1,6 @@
 (* GoStr/PtrKeys.v — C06 on maps whose KEY type owns pointers (hardening round 5).
 
-   Go/Val.v's [has_type] admits a map only if its key type is [can_equal] (pointer-free), and C02's
+   Go/Val.v's [has_type] accepts a map only if its key type is [can_equal] (pointer-free), and C02's
    [spec_eq] finds the partner of an entry by [go_eqeq] on the key: for a key that holds a pointer
    that is the identity of the target, which no text can preserve.  Go allows such keys
    (map[*T]V, map[struct{ S string; P *T }]V, map[[2]*T]V) and derived GoString supports them: each
